@@ -403,7 +403,9 @@ fn run_scheduled(sc: &Scenario, prefix: &[u8], model: &Model) -> (Outcome, Trace
             shared = Some(arc);
         }
     }
-    let (results, trace) = run_once(prefix, closures);
+    // the unbounded runs of the thorough tier switch threads before operations only; every bounded
+    // run also after every atomic / cell operation
+    let (results, trace) = run_once_with(prefix, closures, !sc.name.ends_with("/unbounded"));
     let mut aborted = false;
     let per_thread: Vec<Vec<Token>> = results
         .into_iter()
@@ -818,7 +820,7 @@ fn main() {
     cov.put(
         "bounds",
         J::obj()
-            .set("preemption_bound_completed", if quick { J::from(2) } else { J::from("3 for all scenarios; unbounded for 2-thread scenarios unless listed under capped_scenarios") })
+            .set("preemption_bound_completed", if quick { J::from(2) } else { J::from("3 for all scenarios (scheduling points before and after every instrumented operation); unbounded for 2-thread scenarios (points before operations) unless listed under capped_scenarios") })
             .set("threads", "2-4")
             .set("calls_per_thread", "1-3")
             .set("scheduling_points", "every atomic load/store/rmw of the runtime's counters, every lock acquisition and release (hook H2)"),
